@@ -742,6 +742,8 @@ func c15DNS(r *engine.Result, bad func(string, string, ...interface{})) {
 		}
 	}
 	names = append(names, strings.Repeat("x", 63), strings.Repeat("x", 63)+".com")
+	// absolute names (RFC 1035 5.1: a trailing dot marks the root, it is not another label)
+	names = append(names, "a.", "a.bc.", "a.bc.def.")
 	vals := []uint16{0, 1, 15, 255, 256, 0x7fff, 0x8000, 0xffff}
 	for _, name := range names {
 		for _, qt := range vals {
@@ -752,7 +754,7 @@ func c15DNS(r *engine.Result, bad func(string, string, ...interface{})) {
 				d.SetQuestion(name, qt, qc)
 				// independent rendering: header, labels, 0, qtype, qclass
 				want := []byte{0xbe, 0xef, 0x01, 0x00, 0, 1, 0, 0, 0, 0, 0, 0}
-				for _, l := range strings.Split(name, ".") {
+				for _, l := range strings.Split(strings.TrimSuffix(name, "."), ".") {
 					want = append(want, byte(len(l)))
 					want = append(want, l...)
 				}
@@ -761,8 +763,8 @@ func c15DNS(r *engine.Result, bad func(string, string, ...interface{})) {
 				if !bytes.Equal(d, want) {
 					bad("dns-question", "DNS query for %q type %d class %d encodes as %x, RFC 1035 layout is %x", name, qt, qc, []byte(d), want)
 				}
-				if d.GetDomainLen() != len(name)+2 {
-					bad("dns-domainlen", "GetDomainLen()=%d for %q, encoded name is %d bytes", d.GetDomainLen(), name, len(name)+2)
+				if wl := len(strings.TrimSuffix(name, ".")) + 2; d.GetDomainLen() != wl {
+					bad("dns-domainlen", "GetDomainLen()=%d for %q, encoded name is %d bytes", d.GetDomainLen(), name, wl)
 				}
 			}
 		}
